@@ -418,7 +418,9 @@ func certStep(r *Run, fn *ssa.Function, pairs []laxPair) (map[string]string, *la
 	// non-fatal ⇒ merged into the collector on every path
 	var merges []*ssa.Store
 	for _, st := range r.StoresTo(fn, "&(new:x509.NonFatalErrors#*.Errors)") {
-		if glob("append(new:x509.NonFatalErrors#*.Errors, new:x509.NonFatalErrors#*.Errors)", r.D.D(st.Val)) {
+		// errs.Errors of `errs, ok := err.(NonFatalErrors)`: errs reads as the asserted value
+		// (a local that only holds a copy, desc.structSpill) or as its own local
+		if anyGlob("append(new:x509.NonFatalErrors#*.Errors, new:x509.NonFatalErrors#*.Errors) || append(new:x509.NonFatalErrors#*.Errors, "+selBase(r.D.D(perr))+".(x509.NonFatalErrors)#0.Errors)", r.D.D(st.Val)) {
 			merges = append(merges, st)
 		}
 	}
